@@ -35,7 +35,7 @@ func init() {
 		Rule: "each run = a seeded workload (8-40 API calls) with 1-3 injected I/O errors, each at the k-th seam call (optionally of a given kind: WriteAt, Sync, CommitState, Create, Delete, ListDir, OpenReader, OpenWriter, ReadAt, Load, SetStable, GetStable) inside one operation's window incl. the background rotation and Open; " +
 			"fail-before (no effect), fail-after (effect applied, caller told it failed: failed fsync whose data landed, ambiguous metadata commit) or partial (short write; file fsynced but directory fsync failed; unlinked but directory fsync failed); transient or persistent until lifted; pairs in consecutive ops. " +
 			"In-process after every call the WAL must show exactly the acknowledged appends (a failed append invisible; a failed truncation applied or not); after the final clean reopen every failed call is applied in full or not at all and no acknowledged entry is lost or altered. " +
-			"Non-trivial = at least one fault fired; distinct = distinct sets of (seam kind, before/after/mid, persistent, op kind in whose window).",
+			"A sixth of the runs are the concurrent half: the C06 workload (writer + 1-4 readers, schedule from the tape) in which up to three of the writer's appends fail with a write or fsync error (before / after / short); a reader that is handed an entry of a StoreLogs call that failed - also while that call is still rolling back - is a violation (failed-append-invisible). Non-trivial = at least one fault fired; distinct = distinct sets of (seam kind, before/after/mid, persistent, op kind in whose window).",
 		Components:     compA,
 		Assumptions:    []string{"error values are ordinary *os.PathError (EIO/ENOSPC)", "a call that returns an error without an injected fault in a process lifetime that already saw one is counted as refused, not as a violation (the property does not promise liveness after I/O errors)"},
 		RequiredProbes: []string{"clean_reopens"},
